@@ -1,6 +1,7 @@
 (* C30 — Decompiled manifests compile back to the same manifest (partial). Property theorems only.
-   Model/C30_Text.v: the string escaper of the decompiler (`esc_char`, `hex4`) and the string lexer of
-   the compiler (`lex_string`, `hex4val`). *)
+   Model/C30_Text.v: the string escaper of the decompiler (`escape`, `esc_char`, `hex4`) and the string
+   lexer of the compiler (`lex_string`, `hex4val`).  Strings are lists of code points; a Rust `String`
+   holds exactly the lists of Unicode scalar values (`is_scalar`). *)
 From Coq Require Import List NArith Bool.
 Import ListNotations.
 Require Import RV.Model.C30_Text RV.Proof.C30_Text.
@@ -10,19 +11,42 @@ Open Scope N_scope.
 Theorem C30_hex4_roundtrip : forall v, v < 65536 -> hex4_ok v = true.
 Proof. exact hex4_roundtrip_all. Qed.
 
-(* string-escape inverse, per character, exhaustive over all 1,114,112 code points and both values of
-   the should-escape flag: a scalar value printed by the escaper (literally, by a two-character
-   escape, by \uXXXX or by a surrogate pair) and followed by the closing quote is lexed back to exactly
-   that character.  PARTIAL: the lift to whole strings (lex (esc c ++ rest) continues with rest) and
-   the value-tree printer/parser are not proved; they are covered by correspondence (escape /
-   lex_string vs the implementation on random strings) and by the decompile->compile oracle. *)
-Theorem C30_escape_char_roundtrip_partial : forall c, c < 1114112 -> char_ok c = true.
-Proof. exact escape_char_roundtrip_all. Qed.
+(* string-escape inverse, whole strings (induction over the list): for EVERY choice of the set of
+   characters that get a unicode escape (`f`), and every string of scalar values, the lexer reads the
+   printed literal back to exactly the string — also when more manifest text follows the literal *)
+Theorem C30_string_roundtrip : forall f s, Forall (fun c => is_scalar c = true) s ->
+  exists e, lex_string_literal (escape f s) = SOk s e.
+Proof. exact string_roundtrip. Qed.
+Theorem C30_string_roundtrip_in_context : forall f s rest, Forall (fun c => is_scalar c = true) s ->
+  exists e, lex_string (flat_map (esc_char f) s ++ 34 :: rest) 1 0 [] = SOk s e.
+Proof. exact string_roundtrip_in_context. Qed.
+(* per character: what is printed for c is consumed entirely and yields exactly c *)
+Theorem C30_escape_char_roundtrip : forall f c t pos start acc, is_scalar c = true ->
+  exists k, lex_string (esc_char f c ++ t) pos start acc = lex_string t (pos + k) start (c :: acc).
+Proof. exact lex_esc_char. Qed.
+
+(* ON THE SURROGATE LENIENCY OF THE LEXER.  tokenize_string enters the pair branch for any first unit
+   in D800..DFFF (also a LOW surrogate) and combines it with any second unit, so e.g. "\udc00A"
+   or "\ud800A" lex to an unrelated character (or to InvalidUnicode) instead of being rejected.
+   Against C30: the decompiler prints strings through `esc_char`, which starts from Rust chars (scalar
+   values) and emits \u escapes only as one non-surrogate unit or as a (high, low) pair computed from
+   the character — by C30_string_roundtrip these are always read back exactly, and a lone / mismatched
+   surrogate escape is never printed; the leniency is therefore outside C30.  Against C31: the statement
+   asks for "a manifest or an error, no panic, same answer every time"; the arithmetic cannot underflow
+   (Model: SPanic unreachable, C31 theorems) and the result is a deterministic char or InvalidUnicode.
+   It is thus not a defect with respect to either property; it is a deviation from JSON string
+   semantics on hand-written input only, recorded here and not listed as a finding. *)
+Example C30_surrogate_leniency :
+  lex_string_literal [34; 92; 117; 100; 99; 48; 48; 92; 117; 48; 48; 52; 49; 34] = SOk [1057857] 14.
+Proof. vm_compute. reflexivity. Qed.
 
 Example C30_nonvacuous :
   esc_char (fun _ => true) 128512 = [92; 117; 100; 56; 51; 100; 92; 117; 100; 101; 48; 48] /\
-  lex_string_literal (escape (fun c => N.eqb c 233) [34; 233; 128512; 10]) = SOk [34; 233; 128512; 10] 13.
-Proof. split; vm_compute; reflexivity. Qed.
+  lex_string_literal (escape (fun c => N.eqb c 233) [34; 233; 128512; 10]) = SOk [34; 233; 128512; 10] 13 /\
+  Forall (fun c => is_scalar c = true) [34; 233; 128512; 10].
+Proof. split; [|split]; [vm_compute; reflexivity | vm_compute; reflexivity | repeat constructor]. Qed.
 
 Print Assumptions C30_hex4_roundtrip.
-Print Assumptions C30_escape_char_roundtrip_partial.
+Print Assumptions C30_string_roundtrip.
+Print Assumptions C30_string_roundtrip_in_context.
+Print Assumptions C30_escape_char_roundtrip.
